@@ -211,6 +211,12 @@ fn one_run(ver: u8, rng: &mut Rng, name: &str, steps: usize, out: &mut dyn Write
                                 }
                                 ps.push(P::U16(35, a));
                             }
+                            if ver == 5 && rng.chance(1, 6) {
+                                // a property section that the 3-byte Topic Alias property moves across
+                                // the 127/128 boundary of its length field (rewriting / store regulation)
+                                let n = 117 + rng.below(7) as usize;
+                                ps.push(P::Pair(b"k".to_vec(), vec![b'v'; n]));
+                            }
                             let bytes = w_publish(ver, 2, qos, false, false, &wire_topic, id, &ps, &tag);
                             let obs = $side.call(format!("send {} {}", ver, hex(&bytes)), false);
                             let refused = obs.iter().any(|o| matches!(o, Obs::Err(_)));
